@@ -608,81 +608,149 @@ func checkMemoryPredicate(c *Ctx, p *Prog, rule string) {
 				fromEmpty bool
 				cmp       int // -1 lt, 0 eq, 1 gt  (event.Offset vs from)
 			}
-			fromLike := func(v ssa.Value) bool {
+			// A small symbolic evaluator for the selection condition: comparisons between
+			// the element's Offset and the start offset, tests of the start offset against
+			// "", negation, hoisted booleans, phis (resolved along the walked path) and calls
+			// of boolean helpers of the package (interpreted with their parameters bound).
+			type bindT map[*ssa.Parameter]string
+			var evalBool func(v ssa.Value, prev *ssa.BasicBlock, bd bindT, e env, d int) (bool, bool)
+			class := func(v ssa.Value, bd bindT) string {
 				v = stripConv(v)
-				if !isNamed(v.Type(), PkgBus, "Offset") {
-					return false
+				if pr, ok := v.(*ssa.Parameter); ok {
+					if c, ok := bd[pr]; ok {
+						return c
+					}
 				}
-				if tn, fld, _, ok := fieldLoad(v); ok && tn == "StoredEvent" && fld == "Offset" {
-					return false
+				if k, ok := v.(*ssa.Const); ok {
+					if k.Value != nil && k.Value.ExactString() == `""` {
+						return "empty"
+					}
+					return "other"
 				}
-				_, isConst := v.(*ssa.Const)
-				return !isConst
+				if tn, fld, base, ok := fieldLoad(v); ok && tn == "StoredEvent" && fld == "Offset" {
+					if isElem(base) {
+						return "elemOff"
+					}
+					return "other"
+				}
+				if isNamed(v.Type(), PkgBus, "Offset") {
+					return "from"
+				}
+				return "other"
 			}
-			elemOffset := func(v ssa.Value) bool {
-				tn, fld, base, ok := fieldLoad(v)
-				return ok && tn == "StoredEvent" && fld == "Offset" && isElem(base)
-			}
-			eval := func(cond ssa.Value, e env) (bool, bool) {
-				cv, pol := condStrip(cond)
-				bo, ok := cv.(*ssa.BinOp)
-				if !ok {
+			var interpret func(fn *ssa.Function, bd bindT, e env, d int) (bool, bool)
+			interpret = func(fn *ssa.Function, bd bindT, e env, d int) (bool, bool) {
+				if d > 3 || len(fn.Blocks) == 0 {
 					return false, false
 				}
-				res, known := false, false
-				isEmpty := func(v ssa.Value) bool {
-					k, ok := v.(*ssa.Const)
-					return ok && k.Value != nil && k.Value.ExactString() == `""`
-				}
-				switch {
-				case (bo.Op == token.EQL || bo.Op == token.NEQ) && ((fromLike(bo.X) && isEmpty(bo.Y)) || (fromLike(bo.Y) && isEmpty(bo.X))):
-					res, known = e.fromEmpty == (bo.Op == token.EQL), true
-				case elemOffset(bo.X) && fromLike(bo.Y):
-					known = true
-					switch bo.Op {
-					case token.GTR:
-						res = e.cmp > 0
-					case token.GEQ:
-						res = e.cmp >= 0
-					case token.LSS:
-						res = e.cmp < 0
-					case token.LEQ:
-						res = e.cmp <= 0
-					case token.EQL:
-						res = e.cmp == 0
-					case token.NEQ:
-						res = e.cmp != 0
+				var prev *ssa.BasicBlock
+				blk := fn.Blocks[0]
+				for i := 0; i < 64; i++ {
+					switch t := blk.Instrs[len(blk.Instrs)-1].(type) {
+					case *ssa.If:
+						v, known := evalBool(t.Cond, prev, bd, e, d)
+						if !known {
+							return false, false
+						}
+						prev = blk
+						if v {
+							blk = blk.Succs[0]
+						} else {
+							blk = blk.Succs[1]
+						}
+					case *ssa.Jump:
+						prev, blk = blk, blk.Succs[0]
+					case *ssa.Return:
+						if len(t.Results) != 1 {
+							return false, false
+						}
+						return evalBool(t.Results[0], prev, bd, e, d)
 					default:
-						known = false
-					}
-				case fromLike(bo.X) && elemOffset(bo.Y):
-					known = true
-					switch bo.Op {
-					case token.LSS:
-						res = e.cmp > 0
-					case token.LEQ:
-						res = e.cmp >= 0
-					case token.GTR:
-						res = e.cmp < 0
-					case token.GEQ:
-						res = e.cmp <= 0
-					case token.EQL:
-						res = e.cmp == 0
-					case token.NEQ:
-						res = e.cmp != 0
-					default:
-						known = false
+						return false, false
 					}
 				}
-				if !pol {
-					res = !res
+				return false, false
+			}
+			evalBool = func(v ssa.Value, prev *ssa.BasicBlock, bd bindT, e env, d int) (bool, bool) {
+				switch x := v.(type) {
+				case *ssa.Const:
+					if x.Value != nil && isBoolConst(x) {
+						return x.Value.ExactString() == "true", true
+					}
+					return false, false
+				case *ssa.UnOp:
+					if x.Op == token.NOT {
+						r, k := evalBool(x.X, prev, bd, e, d)
+						return !r, k
+					}
+					return false, false
+				case *ssa.Phi:
+					// the phi sits at the head of the block entered from prev
+					for i, pr := range x.Block().Preds {
+						if pr == prev && i < len(x.Edges) {
+							return evalBool(x.Edges[i], nil, bd, e, d)
+						}
+					}
+					return false, false
+				case *ssa.Call:
+					sc := x.Common().StaticCallee()
+					if sc == nil || PkgOf(sc) != PkgBus || isDynamicCall(x.Common()) {
+						return false, false
+					}
+					nb := bindT{}
+					for i, a := range x.Common().Args {
+						if i < len(sc.Params) {
+							nb[sc.Params[i]] = class(a, bd)
+						}
+					}
+					return interpret(sc, nb, e, d+1)
+				case *ssa.BinOp:
+					cx, cy := class(x.X, bd), class(x.Y, bd)
+					op := x.Op
+					if cx == "from" && cy == "elemOff" { // normalise to elemOff op from
+						cx, cy = cy, cx
+						switch op {
+						case token.LSS:
+							op = token.GTR
+						case token.LEQ:
+							op = token.GEQ
+						case token.GTR:
+							op = token.LSS
+						case token.GEQ:
+							op = token.LEQ
+						}
+					}
+					switch {
+					case (op == token.EQL || op == token.NEQ) && ((cx == "from" && cy == "empty") || (cx == "empty" && cy == "from")):
+						return e.fromEmpty == (op == token.EQL), true
+					case cx == "elemOff" && cy == "from":
+						switch op {
+						case token.GTR:
+							return e.cmp > 0, true
+						case token.GEQ:
+							return e.cmp >= 0, true
+						case token.LSS:
+							return e.cmp < 0, true
+						case token.LEQ:
+							return e.cmp <= 0, true
+						case token.EQL:
+							return e.cmp == 0, true
+						case token.NEQ:
+							return e.cmp != 0, true
+						}
+					}
+					return false, false
 				}
-				return res, known
+				return false, false
+			}
+			eval := func(cond ssa.Value, prev *ssa.BasicBlock, e env) (bool, bool) {
+				return evalBool(cond, prev, bindT{}, e, 0)
 			}
 			// walk from the block that loads the element
 			selected := func(e env) (bool, bool) {
 				seen := map[*ssa.BasicBlock]bool{}
 				blk := elemAddr.Block()
+				var prev *ssa.BasicBlock
 				for i := 0; i < 64; i++ {
 					if blk == sel.Block() {
 						return true, true
@@ -693,17 +761,18 @@ func checkMemoryPredicate(c *Ctx, p *Prog, rule string) {
 					seen[blk] = true
 					switch t := blk.Instrs[len(blk.Instrs)-1].(type) {
 					case *ssa.If:
-						v, known := eval(t.Cond, e)
+						v, known := eval(t.Cond, prev, e)
 						if !known {
 							return false, false
 						}
+						prev = blk
 						if v {
 							blk = blk.Succs[0]
 						} else {
 							blk = blk.Succs[1]
 						}
 					case *ssa.Jump:
-						blk = blk.Succs[0]
+						prev, blk = blk, blk.Succs[0]
 					default:
 						return false, true
 					}
@@ -742,7 +811,7 @@ func checkMemoryPredicate(c *Ctx, p *Prog, rule string) {
 			}
 		}
 	}
-	c.Floor(rule, "loops over the in-memory log", n, 2)
+	c.Floor(rule, "loops over the in-memory log", n, 1)
 }
 
 func firstAnon(f *ssa.Function) *ssa.Function {
@@ -775,14 +844,26 @@ func checkLimitSemantics(c *Ctx, p *Prog, pkg, typ, rule string) {
 		return
 	}
 	okLim := false
-	for _, b := range f.Blocks {
-		for _, in := range b.Instrs {
-			bo, ok := in.(*ssa.BinOp)
-			if !ok {
-				continue
-			}
-			if prm, ok := stripConv(bo.X).(*ssa.Parameter); ok && prm.Name() == "limit" && isConstInt(bo.Y, 0) && (bo.Op == token.GTR || bo.Op == token.LEQ) {
-				okLim = true
+	limit := intParam(f)
+	if limit == nil {
+		c.Unresolved(rule, "UNRESOLVED-ANCHOR/"+typ+".Read/limit", "Read has no single int parameter")
+		return
+	}
+	// the comparison may sit in a helper the limit is handed to
+	web := paramWeb(p, limit)
+	for _, g := range reachFuncs(p, f, pkg) {
+		for _, b := range g.Blocks {
+			for _, in := range b.Instrs {
+				bo, ok := in.(*ssa.BinOp)
+				if !ok {
+					continue
+				}
+				if inWeb(web, bo.X) && isConstInt(bo.Y, 0) && (bo.Op == token.GTR || bo.Op == token.LEQ) {
+					okLim = true
+				}
+				if inWeb(web, bo.Y) && isConstInt(bo.X, 0) && (bo.Op == token.LSS || bo.Op == token.GEQ) {
+					okLim = true
+				}
 			}
 		}
 	}
@@ -918,21 +999,39 @@ func checkJournal(c *Ctx, p *Prog, stmts []sqlStmt, rule string) {
 	}
 	// every pragma's error is propagated: in the function that executes the pragma list
 	// every Exec result error is tested and returned
-	f := p.Func(PkgSQLite, "applyPragmas")
+	// the function that executes the pragmas: whichever function of the package mentions
+	// the PRAGMA statements
+	var f *ssa.Function
+	for _, g := range p.FuncsIn(PkgSQLite) {
+		for _, b := range g.Blocks {
+			for _, in := range b.Instrs {
+				for _, op := range in.Operands(nil) {
+					if op == nil || *op == nil {
+						continue
+					}
+					if k, ok := (*op).(*ssa.Const); ok && k.Value != nil && k.Value.Kind() == constant.String && strings.HasPrefix(strings.ToUpper(strings.TrimSpace(constant.StringVal(k.Value))), "PRAGMA JOURNAL_MODE") {
+						f = g
+					}
+				}
+			}
+		}
+	}
 	if f == nil {
-		c.Unresolved(rule, "UNRESOLVED-ANCHOR/applyPragmas", "function not found")
+		c.Unresolved(rule, "UNRESOLVED-ANCHOR/pragma-function", "no function of the package mentions PRAGMA journal_mode")
 		return
 	}
 	okProp := false
-	for _, b := range f.Blocks {
-		for _, in := range b.Instrs {
-			if call, ok := in.(*ssa.Call); ok && isExecCall(call.Common()) {
-				for _, ref := range *call.Referrers() {
-					if ex, ok := ref.(*ssa.Extract); ok && ex.Index == 1 {
-						for _, r2 := range *ex.Referrers() {
-							if bo, ok := r2.(*ssa.BinOp); ok {
-								if _, _, ok := nilTest(bo); ok {
-									okProp = true
+	for _, g := range reachFuncs(p, f, PkgSQLite) {
+		for _, b := range g.Blocks {
+			for _, in := range b.Instrs {
+				if call, ok := in.(*ssa.Call); ok && isExecCall(call.Common()) {
+					for _, ref := range *call.Referrers() {
+						if ex, ok := ref.(*ssa.Extract); ok && ex.Index == 1 {
+							for _, r2 := range *ex.Referrers() {
+								if bo, ok := r2.(*ssa.BinOp); ok {
+									if _, _, ok := nilTest(bo); ok {
+										okProp = true
+									}
 								}
 							}
 						}
@@ -942,24 +1041,29 @@ func checkJournal(c *Ctx, p *Prog, stmts []sqlStmt, rule string) {
 		}
 	}
 	c.Check(okProp, rule, "pragma/errors-propagated", p.Pos(f.Pos()), "each pragma's error is tested and returned", "pragma errors are ignored: a database that could not be put into its journal mode is used anyway")
-	// New returns the pragma error
-	if nf := p.Func(PkgSQLite, "New"); nf != nil {
-		okNew := false
-		for _, b := range nf.Blocks {
-			for _, in := range b.Instrs {
-				if call, ok := in.(*ssa.Call); ok && call.Common().StaticCallee() == f {
-					for _, ref := range *call.Referrers() {
-						if bo, ok := ref.(*ssa.BinOp); ok {
-							if _, _, ok := nilTest(bo); ok {
-								okNew = true
-							}
-						}
+	// the caller(s) of the pragma function look at its error
+	ix := newIPIndex(p)
+	callers := ix.callers[f]
+	okNew := len(callers) > 0
+	for _, ci := range callers {
+		tested := false
+		if v, isVal := ci.(ssa.Value); isVal {
+			for _, ref := range *v.Referrers() {
+				if bo, ok := ref.(*ssa.BinOp); ok {
+					if _, _, ok := nilTest(bo); ok {
+						tested = true
 					}
+				}
+				if _, isRet := ref.(*ssa.Return); isRet {
+					tested = true
 				}
 			}
 		}
-		c.Check(okNew, rule, "New/pragma-error-checked", p.Pos(nf.Pos()), "New fails when the pragmas cannot be applied", "New does not check applyPragmas' error")
+		if !tested {
+			okNew = false
+		}
 	}
+	c.Check(okNew, rule, "New/pragma-error-checked", p.Pos(f.Pos()), "opening fails when the pragmas cannot be applied", "the caller of the pragma function does not check its error")
 }
 
 // ---------------------------------------------------------------------------
@@ -1001,6 +1105,35 @@ func (r *txRule) OnExit(e *Engine, st *State, kind ExitKind) {
 	}
 }
 
+// localCallee: the function a call goes to when it is a static callee, a closure made in
+// place, or a local variable holding one closure.
+func localCallee(c *ssa.CallCommon) *ssa.Function {
+	if sc := c.StaticCallee(); sc != nil {
+		return sc
+	}
+	v := stripConv(c.Value)
+	if ld, ok := v.(*ssa.UnOp); ok && ld.Op == token.MUL {
+		if al, ok := ld.X.(*ssa.Alloc); ok {
+			var stored ssa.Value
+			n := 0
+			for _, ref := range *al.Referrers() {
+				if st, ok := ref.(*ssa.Store); ok && st.Addr == al {
+					stored = st.Val
+					n++
+				}
+			}
+			if n == 1 {
+				v = stripConv(stored)
+			}
+		}
+	}
+	if mc, ok := v.(*ssa.MakeClosure); ok {
+		fn, _ := mc.Fn.(*ssa.Function)
+		return fn
+	}
+	return nil
+}
+
 func checkMigration(c *Ctx, p *Prog, stmts []sqlStmt, rule string) {
 	n := 0
 	txFns := map[*ssa.Function]bool{}
@@ -1040,6 +1173,31 @@ func checkMigration(c *Ctx, p *Prog, stmts []sqlStmt, rule string) {
 						case *ssa.Store:
 							_ = x
 							commitReturned = true
+						case *ssa.Call:
+							// handed to a pass-through helper/closure whose result is returned:
+							// `return rollbackOnError(tx.Commit())`
+							if g := localCallee(x.Common()); g != nil {
+								for i, a := range x.Common().Args {
+									if a != ssa.Value(call) || i >= len(g.Params) {
+										continue
+									}
+									passes := false
+									for _, ret := range returnsOf(g) {
+										for _, rv := range ret.Results {
+											if stripConv(rv) == ssa.Value(g.Params[i]) {
+												passes = true
+											}
+										}
+									}
+									if passes {
+										for _, r2 := range *x.Referrers() {
+											if _, isRet := r2.(*ssa.Return); isRet {
+												commitReturned = true
+											}
+										}
+									}
+								}
+							}
 						}
 					}
 				}
